@@ -100,6 +100,7 @@ def cStep (p : CSt) (ws : List String) : CSt × String :=
     (match cparseKey k, v.toNat? with
      | some k, some v => fin (C.setitem p.cfg s k v) fun r => ({ p with st := some r.1 }, "ok")
      | _, _ => (p, "bad-op"))
+  | ["gctypes", _, _, _], some _ => (p, "ok")   -- oracle-only line (function-local subclasses, instances in cycles, collected)
   | ["deepcheck", _, _], some _ => (p, "ok")     -- oracle-only line (a separate tall tree checked against dict by the harness)
   | ["repeatset", k, v, n], some s =>
     -- the same assignment `n` times in a row (drives the modification stamp far without a long op file)
